@@ -106,7 +106,7 @@ def instances(tier):
         I("1x1x2-", "make", (s12, 1.0, -1), "1 battery behind 2 inverters, supply", budget_s=200, **kw),
         I("1x2x1+", "make", (s21, 1.0, 1), "2 batteries behind 1 inverter, consume", budget_s=200, **kw),
         I("3x(1x1)+soc", "make", (((1, 1),) * 3, 1.0, 1, None, False, False, (79.0, 50.0, 70.0)), "3 groups; SoC data concrete (headroom 21/50/30 %, capacity 1), so every share is "
-          "linear in the symbolic request and bounds (QF_LRA); all power bounds and the request symbolic (budgeted)", budget_s=120, exhaustive=False,
+          "linear in the symbolic request and bounds (QF_LRA); all power bounds and the request symbolic (budgeted)", budget_s=90, exhaustive=False,
           incremental=True, validate_every=200, timeout_ms=30000, decision_limit=120),
         I("2x(1x1)+", "make", (g2, 1.0, 1), "2 groups of 1 battery + 1 inverter, consume", budget_s=600, **kw),
         I("2x(1x1)+@excl", "make", (g2, 1.0, 1, "excl"), "request exactly the advertised exclusion bound", budget_s=300, **kw),
